@@ -22,3 +22,6 @@ BOUNDS = {
 OUTSIDE = 'weak-memory effects (sequential consistency is assumed: Atomic uses the full-barrier __sync builtins), preemption at plain (non-atomic, non-volatile) accesses, more than 3 threads'
 ASSUMPTIONS = ['threads are modelled by the engine (no native replay for the threads unit: counterexamples are schedules, re-executed deterministically by the engine)',
                'engine heap checks: double free, use after free, leak at harness exit; sequential consistency']
+
+TECHNIQUE = 'solver-based bounded symbolic execution of clang-14 LLVM IR for the sequential handle histories (String/Variant/Xml units, native replay); exhaustive bounded enumeration of handle histories (Ptr) and of thread schedules within a preemption bound (threads unit) by the same executor - those parts have no symbolic data and discharge no solver query'
+LEVEL_TEXT = 'Sequential sharing histories: bounded symbolic execution of the real IR decided by z3, counterexamples replayed natively. RefCount::Ptr histories and the threads unit: bounded model checking by exhaustive enumeration of operation choices / thread schedules (preemption bound) on the real IR over an engine model of pthreads with sequential consistency; no solver involvement there, counterexamples are schedules re-executed concretely by the engine.'
